@@ -244,11 +244,12 @@ impl<'a> DocGen<'a> {
     }
 
     pub fn string_value(&mut self) -> String {
-        let pool: [&str; 16] = ["", "text", "a b", "q\\\"q", "b\\\\s", "t\\tn\\n", "it''s", "dq\"\"x", "é", "日本", "😀", "/* no */", "// no", "/begin X", "0x10", "\\'"];
+        // (the last two: a quote, in either notation, can stand at the very beginning or end of a value)
+        let pool: [&str; 18] = ["", "text", "a b", "q\\\"q", "b\\\\s", "t\\tn\\n", "it''s", "dq\"\"x", "é", "日本", "😀", "/* no */", "// no", "/begin X", "0x10", "\\'", "\\\"", "\"\""];
         let n = self.rng.below(3);
         let mut s = String::new();
         for _ in 0..=n {
-            let p = pool[self.rng.below(if self.opts.unicode { 16 } else { 8 })];
+            let p = pool[self.rng.below(if self.opts.unicode { 18 } else { 8 })];
             s.push_str(p);
         }
         format!("\"{s}\"")
